@@ -8,6 +8,7 @@ import (
 	"context"
 	"encoding/json"
 	"fmt"
+	"os"
 	"sort"
 	"strings"
 
@@ -134,6 +135,16 @@ func sortJSON(v interface{}) interface{} {
 // out of a Go map (or out of the schema traversal order), so all arrays are sorted; for ordinary
 // documents only the list of validation errors (no data) is sorted, data and execution errors keep
 // their order.
+// requestFeatures is the FeatureSet of a request that enables exactly the named features. "No features"
+// is written both ways an application can write it: an empty set, and no set at all (nil) — which one is
+// a function of the world's seed.
+func requestFeatures(features []string, w *world) graphql.FeatureSet {
+	if len(features) == 0 && os.Getenv("C13_PAD") != "" && w.seed%2 == 0 {
+		return nil
+	}
+	return graphql.NewFeatureSet(features...)
+}
+
 func runQuery(b *built, w *world, features []string, q *query) (o outcome) {
 	w.log = nil
 	defer func() {
@@ -146,7 +157,7 @@ func runQuery(b *built, w *world, features []string, q *query) (o outcome) {
 		Context:        context.Background(),
 		Query:          q.Text,
 		Schema:         b.schema,
-		Features:       graphql.NewFeatureSet(features...),
+		Features:       requestFeatures(features, w),
 		VariableValues: q.Vars,
 	})
 	raw, err := json.Marshal(resp)
@@ -539,6 +550,39 @@ func diffLines(a, b []string) string {
 // document with the request's feature set F (graphql.Request.Document is the documented way to skip
 // re-validation). It returns the resolver log, or ok=false when the document is not valid even with
 // all features (or the library panics, which is not this property's business).
+// runSubscribe sends a subscription operation's query text to graphql.Subscribe (the subscribe step):
+// the outcome is the error list, or "subscribed" with the resolver calls it made. Other operations: empty.
+func runSubscribe(b *built, w *world, features []string, q *query) (o outcome) {
+	if !(q.doc != nil && q.doc.Op == "subscription") && !strings.HasPrefix(strings.TrimSpace(q.Text), "subscription") {
+		return o
+	}
+	w.log = nil
+	defer func() {
+		if p := recover(); p != nil {
+			o.Resp = "panic: " + fmt.Sprint(p)
+			o.Log = append([]string(nil), w.log...)
+		}
+	}()
+	_, errs := graphql.Subscribe(&graphql.Request{
+		Context:        context.Background(),
+		Query:          q.Text,
+		Schema:         b.schema,
+		Features:       requestFeatures(features, w),
+		VariableValues: q.Vars,
+	})
+	if len(errs) > 0 {
+		raw, _ := json.Marshal(errs)
+		var v interface{}
+		json.Unmarshal(raw, &v)
+		c, _ := json.Marshal(sortJSON(v))
+		o.Resp = "errors: " + string(c)
+	} else {
+		o.Resp = "subscribed"
+	}
+	o.Log = append([]string(nil), w.log...)
+	return o
+}
+
 func runPrevalidated(b *built, w *world, all, features []string, q *query) (log []string, ok bool) {
 	w.log = nil
 	defer func() {
@@ -554,7 +598,7 @@ func runPrevalidated(b *built, w *world, all, features []string, q *query) (log 
 		Context:        context.Background(),
 		Document:       doc,
 		Schema:         b.schema,
-		Features:       graphql.NewFeatureSet(features...),
+		Features:       requestFeatures(features, w),
 		VariableValues: q.Vars,
 	}
 	if graphql.IsSubscription(doc, "") {
